@@ -30,7 +30,7 @@ type Scenario struct {
 
 type SourceSpec struct {
 	Name  string   `json:"name"`
-	Kind  string   `json:"kind"` // mem | file | rec
+	Kind  string   `json:"kind"` // mem | file | rec | fail
 	Lines []string `json:"lines"`
 }
 
@@ -146,14 +146,18 @@ func unhex(h string) []byte {
 
 // recording history source
 type recSource struct {
-	mu     sync.Mutex
-	lines  []string
-	writes []string
+	mu      sync.Mutex
+	lines   []string
+	writes  []string
+	failing bool
 }
 
 func (r *recSource) Write(s string) (int, error) {
 	r.mu.Lock()
 	defer r.mu.Unlock()
+	if r.failing {
+		return 0, fmt.Errorf("write failed: read-only history")
+	}
 	r.lines = append(r.lines, s)
 	r.writes = append(r.writes, s)
 	return len(r.lines), nil
@@ -353,6 +357,11 @@ func runCase(cs *Case, ci int, pty *ptyPair, em *emu, home string) (alive bool) 
 		case "rec":
 			rec = &recSource{}
 			src = rec
+		case "fail":
+			// a source whose writes fail (read-only file, full disk, ...) once its prior entries are loaded
+			rec = &recSource{}
+			src = rec
+			defer func(r *recSource) { r.failing = false }(rec)
 		default:
 			src = readline.NewInMemoryHistory()
 		}
@@ -361,6 +370,7 @@ func runCase(cs *Case, ci int, pty *ptyPair, em *emu, home string) (alive bool) 
 		}
 		if rec != nil {
 			rec.writes = nil
+			rec.failing = sp.Kind == "fail"
 		}
 		rl.History.Add(sp.Name, src)
 		srcs = append(srcs, boundSrc{sp.Name, src, rec})
